@@ -1306,6 +1306,7 @@ pub fn c06(ctx: &mut Ctx) {
     c06_core(ctx);
     crate::props_sizes::c06(ctx);
     crate::props_far::c06(ctx);
+    crate::props_far::c06_wide(ctx);
 }
 
 pub fn c07(ctx: &mut Ctx) {
